@@ -203,4 +203,126 @@ theorem normalizeOpen_openValid (S : Schema) : ∀ (n : Nat) (c : List Node) (os
       · exact h
     · exact h
 
+/-! ### opening a node with valid content at the open end: `openValid a b → openValid a (b + 1)` -/
+
+theorem rightOpenValid_snoc (S : Schema) (b : Nat) : ∀ (init : List Node) (t : TypeId) (a : Attrs) (m : Marks)
+    (k : List Node), rightOpenValid S (b + 1) (init ++ [.elem t a m k]) =
+      (S.checkKids init && (canonicalMarks S m && rightOpenValid S b k))
+  | [], t, a, m, k => by simp [rightOpenValid]
+  | [n], t, a, m, k => by
+    simp only [List.cons_append, List.nil_append, rightOpenValid, checkKids_cons, checkKids_nil, Bool.and_true]
+  | n :: y :: ys, t, a, m, k => by
+    have ih := rightOpenValid_snoc S b (y :: ys) t a m k
+    simp only [List.cons_append] at ih ⊢
+    simp only [rightOpenValid, checkKids_cons, ih, Bool.and_assoc]
+
+theorem fappend_singleton_elem (frag : List Node) (t : TypeId) (a : Attrs) (m : Marks) (k : List Node) :
+    fappend frag [.elem t a m k] = frag ++ [.elem t a m k] := by
+  unfold fappend
+  simp only
+  split
+  · rename_i he
+    have : frag = [] := by simpa using he
+    subst this; rfl
+  · rw [addNode_elem]; simp
+
+theorem addToFragment_cons_cons (x y : Node) (ys c r : List Node) (d : Nat)
+    (h : addToFragment (x :: y :: ys) (d + 1) c = .ok r) :
+    ∃ r', addToFragment (y :: ys) (d + 1) c = .ok r' ∧ r = x :: r' := by
+  unfold addToFragment at h ⊢
+  rw [List.getLast?_cons_cons] at h
+  split at h
+  · rename_i t a m kids hl
+    obtain ⟨inner, hi, h⟩ := FM.bind_ok h
+    have := pure_ok h
+    subst this
+    refine ⟨(y :: ys).dropLast ++ [.elem t a m inner], ?_, by rw [List.dropLast_cons_cons]; rfl⟩
+    simp only [hl, FM.bind_eq hi]
+    rfl
+  · simp [throw, throwThe, MonadExceptOf.throw] at h
+
+theorem rightOpenValid_open (S : Schema) (ty : TypeId) (at_ : Attrs) (content : List Node)
+    (hc : S.checkKids content = true) : ∀ (b : Nat) (frag r : List Node),
+    addToFragment frag b [.elem ty at_ [] content] = .ok r → rightOpenValid S b frag = true →
+    rightOpenValid S (b + 1) r = true
+  | 0, frag, r, h, hv => by
+    have := pure_ok h
+    subst this
+    rw [fappend_singleton_elem, rightOpenValid_snoc]
+    simp only [rightOpenValid] at hv ⊢
+    simp [hv, canonicalMarks_nil, hc]
+  | b + 1, frag, r, h, hv => by
+    unfold addToFragment at h
+    split at h
+    · rename_i t a m kids hl
+      obtain ⟨inner, hi, h⟩ := FM.bind_ok h
+      have := pure_ok h
+      subst this
+      obtain ⟨init, rfl⟩ := List.getLast?_eq_some_iff.mp hl
+      rw [rightOpenValid_snoc] at hv
+      simp only [Bool.and_eq_true] at hv
+      have ih := rightOpenValid_open S ty at_ content hc b kids inner hi hv.2.2
+      simp only [List.dropLast_concat]
+      rw [rightOpenValid_snoc]
+      simp [hv.1, hv.2.1, ih]
+    · simp [throw, throwThe, MonadExceptOf.throw] at h
+
+/-- **re-opening a node at the open end** (`open_frontier_node` with valid filler content) keeps payload
+    validity, one level deeper on the right -/
+theorem openValid_open (S : Schema) (ty : TypeId) (at_ : Attrs) (content : List Node)
+    (hc : S.checkKids content = true) : ∀ (b a : Nat) (frag r : List Node),
+    addToFragment frag b [.elem ty at_ [] content] = .ok r → openValid S a b frag = true →
+    openValid S a (b + 1) r = true
+  | b, 0, frag, r, h, hv => by
+    simp only [openValid] at hv ⊢
+    exact rightOpenValid_open S ty at_ content hc b frag r h hv
+  | 0, a + 1, frag, r, h, hv => by
+    have := pure_ok h
+    subst this
+    rw [fappend_singleton_elem]
+    simp only [openValid] at hv
+    cases frag with
+    | nil => simp [leftOpenValid] at hv
+    | cons n rest =>
+      cases n with
+      | elem t a0 m k =>
+        simp only [leftOpenValid, Bool.and_eq_true] at hv
+        have hr : rightOpenValid S 1 (rest ++ [.elem ty at_ [] content]) = true := by
+          rw [rightOpenValid_snoc]
+          simp [hv.2, canonicalMarks_nil, rightOpenValid, hc]
+        cases rest with
+        | nil =>
+          simp only [List.nil_append] at hr
+          simp only [List.cons_append, List.nil_append, openValid, hv.1.1, hv.1.2, hr, Bool.and_self]
+        | cons y ys =>
+          simp only [List.cons_append] at hr ⊢
+          simp only [openValid, hv.1.1, hv.1.2, hr, Bool.and_self]
+      | text s m => simp [leftOpenValid] at hv
+      | leaf t a0 m => simp [leftOpenValid] at hv
+  | b + 1, a + 1, frag, r, h, hv => by
+    cases frag with
+    | nil => simp [openValid] at hv
+    | cons n rest =>
+      cases n with
+      | elem t a0 m k =>
+        cases rest with
+        | nil =>
+          unfold addToFragment at h
+          simp only [List.getLast?_singleton] at h
+          obtain ⟨inner, hi, h⟩ := FM.bind_ok h
+          have := pure_ok h
+          subst this
+          simp only [openValid, Bool.and_eq_true] at hv
+          have ih := openValid_open S ty at_ content hc b a k inner hi hv.2
+          simp [openValid, hv.1, ih]
+        | cons y ys =>
+          obtain ⟨r', hr', rfl⟩ := addToFragment_cons_cons _ y ys _ r b h
+          simp only [openValid, Bool.and_eq_true] at hv
+          have ih := rightOpenValid_open S ty at_ content hc (b + 1) (y :: ys) r' hr' hv.2
+          cases r' with
+          | nil => simp [rightOpenValid] at ih
+          | cons n2 rest2 => simp [openValid, hv.1.1, hv.1.2, ih]
+      | text s m => simp [openValid] at hv
+      | leaf t a0 m => simp [openValid] at hv
+
 end PM
